@@ -1,6 +1,6 @@
 (* correspondence glue for C08: the Go hash trees and verifiers against the reference construction,
    run with the executable SHA-256 *)
-From V Require Export Base.Hex Merkle.Sha256 Merkle.RefPath Merkle.Main Merkle.AHT Merkle.VerifyFixed.
+From V Require Export Base.Hex Merkle.Sha256 Merkle.RefPath Merkle.Main Merkle.AHT Merkle.VerifyFixed Merkle.HTree.
 From V Require Import Merkle.RefutedFixed.
 
 Definition Hs := sha256.
@@ -17,7 +17,7 @@ Definition lbytes_eqb := list_eqb bytes_eqb.
 (* the consistency verifier the Go code is compared with.  When fixes/C08-consistency-length.diff is
    applied to /repo, replace `verify_consistency` by `verify_consistency_fixed` here (nothing else
    changes in the tie); theorems C08_consistency_fixed_* are about that function. *)
-Definition vcons := verify_consistency Hs.
+Definition vcons := verify_consistency_fixed Hs.
 
 (* index into the digest log recorded by the harness (N counter: an out-of-range index stays cheap) *)
 Fixpoint nthN (l : list bytes) (i : N) : res bytes :=
@@ -60,6 +60,8 @@ Inductive case :=
 (* htree: root of BuildWith(digests); empty list allowed (root = H []) *)
 | CHtRoot (digests : list bytes) (root : bytes)
 | CHtProof (digests : list bytes) (i : N) (terms : list bytes)
+(* outcome class of htree.InclusionProof(i) for an i outside 0 <= i < width: 0 proof, 1 error, 2 panic *)
+| CHtEdge (digests : list bytes) (i : Z) (class : N)
 | CHtVer (leaf width : Z) (terms : list bytes) (digest root : bytes) (verdict : bool).
 
 Definition case_ok (c : case) : bool :=
@@ -86,10 +88,14 @@ Definition case_ok (c : case) : bool :=
   | CVerLast t i leaf root v => Bool.eqb (verify_last_inclusion Hs t i leaf root) v
   | CVerCons t i j ir jr v => res_eqb Bool.eqb (vcons t i j ir jr) v
   | CHtRoot ds root =>
-      bytes_eqb (match ds with [] => Hs [] | _ => mroot ds end) root
+      bytes_eqb (match ds with [] => Hs [] | _ => mroot ds end) root &&
+      bytes_eqb (ht_root (ht_build Hs ds)) root
   | CHtProof ds i terms =>
       (* the RFC 6962 audit path AND the honest path of C08_htree_inclusion_complete *)
       lbytes_eqb (audit Hs (mk_tree ds) i) terms &&
-      lbytes_eqb (honest_inclusion_proof Hs ds (i + 1)) terms
+      lbytes_eqb (honest_inclusion_proof Hs ds (i + 1)) terms &&
+      (* the transliterated BuildWith / InclusionProof *)
+      res_eqb lbytes_eqb (ht_inclusion_proof (ht_build Hs ds) (Z.of_N i)) (Ok terms)
+  | CHtEdge ds i c => res_class (ht_inclusion_proof (ht_build Hs ds) i) =? c
   | CHtVer leaf width t d root v => Bool.eqb (htree_verify_inclusion Hs leaf width t d root) v
   end.
